@@ -128,6 +128,11 @@ fn parse_args(args: &[&str]) -> Result<ParsedInfo, Box<dyn Error>> {
         && (args[i] == "-" || !args[i].starts_with('-'))
         && args[i] != "!"
         && args[i] != "("
+        // "," and ")" cannot begin an expression, but they are part of one:
+        // taken as starting points they would be searched (and the files
+        // before them processed) before the expression is ever looked at.
+        && args[i] != ","
+        && args[i] != ")"
     {
         paths.push(args[i].to_string());
         i += 1;
